@@ -44,8 +44,42 @@ def run_check(prop, tier, seed, replay=None):
     obligations = max(len(theorems), 1)
     discharged = len([t for t in theorems if t not in bad]) if ok else 0
 
+    # thorough tier: the compiled module is re-checked by the independent checker
+    leanchecker = None
+    if ok and tier == 'thorough':
+        rc_lc, out_lc, err_lc = run(['lake', 'env', 'leanchecker', 'EpsModel.Props.' + prop], cwd=LEAN, timeout=3600)
+        leanchecker = 'ok' if rc_lc == 0 else 'failed'
+        if rc_lc != 0:
+            proof_problems.append('leanchecker EpsModel.Props.%s failed:\n%s' % (prop, (out_lc + err_lc)[-2000:]))
+
     # 2. correspondence ----------------------------------------------------------------------
-    result = spec.run(prop, tier, seed, replay)
+    # the thorough tier explores several universes (each: its own generated definitions, types, values and cases)
+    seeds = [seed] if (tier != 'thorough' or replay) else [seed, seed + 101, seed + 202, seed + 303]
+    result = None
+    for sd in seeds:
+        r = spec.run(prop, tier, sd, replay)
+        for _, detail in r['failures'] + r['disagreements']:
+            detail.setdefault('universe_seed', sd)
+        if result is None:
+            result = r
+            result['coverage']['universe_seeds'] = [sd]
+        else:
+            result['failures'] += r['failures']
+            result['disagreements'] += r['disagreements']
+            c, c2 = result['coverage'], r['coverage']
+            c['universe_seeds'].append(sd)
+            c['evaluations'] += c2.get('evaluations', 0)
+            c['traces_validated_against_impl'] = c.get('traces_validated_against_impl', 0) + c2.get('traces_validated_against_impl', 0)
+            c['distinct_set'] = sorted(set(map(tuple, c.get('distinct_set', []))) | set(map(tuple, c2.get('distinct_set', []))))
+            c['distinct_nontrivial'] = len(c['distinct_set']) or max(c['distinct_nontrivial'], c2['distinct_nontrivial'])
+            d1, d2 = c.get('input_distribution', {}), c2.get('input_distribution', {})
+            for key in ('families', 'outcomes'):
+                for k, v in d2.get(key, {}).items():
+                    d1.setdefault(key, {})[k] = d1.get(key, {}).get(k, 0) + v
+            for key in ('types', 'derived_definitions'):
+                if key in d2: d1[key] = d1.get(key, 0) + d2[key]
+    result['coverage'].pop('distinct_set', None)
+    if leanchecker: result['coverage']['leanchecker'] = leanchecker
     failures, disagreements = result['failures'], result['disagreements']
 
     # 3. verdict ---------------------------------------------------------------------------
@@ -60,7 +94,7 @@ def run_check(prop, tier, seed, replay=None):
             continue
         n += 1
         if n <= 5:
-            path = write_replay(prop, seed, n, {'property': prop, 'tier': tier, 'seed': seed, 'kind': 'oracle-failure',
+            path = write_replay(prop, seed, n, {'property': prop, 'tier': tier, 'seed': detail.get('universe_seed', seed), 'kind': 'oracle-failure',
                                                 'signature': sig, 'detail': detail})
             violations.append('VIOLATION property=%s replay=%s' % (prop, path))
     if not violations and (disagreements or proof_problems):
@@ -110,6 +144,13 @@ def main():
     a = ap.parse_args()
     if a.tier not in ('quick', 'thorough'):
         a.tier = 'quick'
+    if a.replay:
+        # a replay re-runs its lines in the universe they were generated in
+        try:
+            rp = json.load(open(a.replay))
+            a.seed, a.tier = int(rp.get('seed', a.seed)), rp.get('tier', a.tier)
+        except (OSError, ValueError):
+            pass
     sys.exit(run_check(a.prop, a.tier, a.seed, a.replay))
 
 
